@@ -792,12 +792,12 @@ func Reach(fn *ssa.Function, starts []Pt, o Opts) *Reached {
 							} else {
 								upd[p.Name()] = -1
 							}
-						} else if ip, ok := inc.(*ssa.Phi); ok && tracked.phis[ip] && !negInc {
+						} else if ip, ok := inc.(*ssa.Phi); ok && tracked.phis[ip] && !nilable(ip.Type()) {
 							if v, ok := envGet(s.env, ip.Name()); ok {
 								if v {
-									upd[p.Name()] = 1
+									upd[p.Name()] = flip(1)
 								} else {
-									upd[p.Name()] = 0
+									upd[p.Name()] = flip(0)
 								}
 							} else {
 								upd[p.Name()] = -1
